@@ -3,16 +3,17 @@
 package serverinterceptors
 
 // C02 driver (thorough tier): calls go through the real UnarySheddingInterceptor in front of a
-// real adaptive shedder (cpu threshold 0: the real systemOverloadChecker always reports
-// overload). A recording wrapper around the shedder logs every Allow / Pass / Fail the
-// middleware performs; the next handler is gated by the driver, so many requests can be
-// parked in flight while exactly one thing happens at a time. No expectations here.
+// real adaptive shedder (CPU verdict injected, virtual clock). A recording wrapper around the
+// shedder logs every Allow / Pass / Fail the middleware performs; the next handler is gated by
+// the driver, so many requests can be parked in flight while exactly one thing happens at a
+// time. No expectations here: TLC validates the trace against specs/shedder/Shedder.tla
+// (events: reset adv allow pass fail hend -- hend{id}: the request that holds promise id has
+// returned to its caller, id 0: it was shed).
 
 import (
 	"context"
 	"errors"
 	"fmt"
-	"reflect"
 	"sync"
 	"sync/atomic"
 	"testing"
@@ -29,11 +30,13 @@ import (
 
 const c02Base = 1000 * time.Hour
 
-var c02Rel int64 // microseconds since the shedder was created
+var (
+	c02Rel atomic.Int64 // ms since the shedder was created
+	c02Ov  atomic.Bool
+)
 
 // c02Rec wraps the real shedder and logs what the middleware does with it.
 type c02Rec struct {
-	t      *testing.T
 	em     *verifEmitter
 	inner  load.Shedder
 	mu     sync.Mutex
@@ -47,50 +50,39 @@ type c02Promise struct {
 	p  load.Promise
 }
 
-func (r *c02Rec) peek() (int64, int64) {
-	v := reflect.ValueOf(r.inner)
-	if v.Kind() != reflect.Ptr || v.Elem().Kind() != reflect.Struct {
-		return -1, -1
-	}
-	f, a := v.Elem().FieldByName("flying"), v.Elem().FieldByName("avgFlying")
-	if !f.IsValid() || !a.IsValid() {
-		r.t.Fatalf("adaptiveShedder has no flying/avgFlying fields any more")
-	}
-	return f.Int(), int64(a.Float() * 1000)
-}
-
 func (r *c02Rec) Allow() (load.Promise, error) {
+	ov := c02Ov.Load()
 	p, err := r.inner.Allow()
-	fly, avg := r.peek()
+	fly, avg, _ := load.VerifC02Peek(r.inner)
 	r.mu.Lock()
 	defer r.mu.Unlock()
+	r.next++
 	if err != nil {
 		r.lastID = 0
-		r.em.Emit(verifEv{"e": "allow", "ov": true, "shed": true, "id": 0, "fly": fly, "avg": avg})
+		r.em.Emit(verifEv{"e": "allow", "id": r.next, "ov": ov, "shed": true, "fly": fly, "avg": avg})
 		return nil, err
 	}
-	r.next++
 	r.lastID = r.next
-	r.em.Emit(verifEv{"e": "allow", "ov": true, "shed": false, "id": r.next, "fly": fly, "avg": avg})
+	r.em.Emit(verifEv{"e": "allow", "id": r.next, "ov": ov, "shed": false, "fly": fly, "avg": avg})
 	return &c02Promise{r: r, id: r.next, p: p}, nil
 }
 
 func (p *c02Promise) Pass() {
 	p.p.Pass()
-	fly, avg := p.r.peek()
+	fly, avg, _ := load.VerifC02Peek(p.r.inner)
 	p.r.em.Emit(verifEv{"e": "pass", "id": p.id, "fly": fly, "avg": avg})
 }
 
 func (p *c02Promise) Fail() {
 	p.p.Fail()
-	fly, avg := p.r.peek()
+	fly, avg, _ := load.VerifC02Peek(p.r.inner)
 	p.r.em.Emit(verifEv{"e": "fail", "id": p.id, "fly": fly, "avg": avg})
 }
 
 type c02Req struct {
 	id      int         // promise id (0: shed)
 	release chan string // what the parked handler should do
-	done    chan [2]string
+	done    chan struct{}
 }
 
 func TestVerifC02Interceptor(t *testing.T) {
@@ -99,28 +91,27 @@ func TestVerifC02Interceptor(t *testing.T) {
 	logx.Disable()
 	stat.SetReporter(nil)
 	timex.VerifNow = func() time.Duration {
-		return c02Base + time.Duration(atomic.LoadInt64(&c02Rel))*time.Microsecond
+		return c02Base + time.Duration(c02Rel.Load())*time.Millisecond
 	}
 	defer func() { timex.VerifNow = nil }()
+	defer load.VerifC02SetOverload(func() bool { return c02Ov.Load() })()
 	rnd := verifRand(6)
 	metrics := stat.NewMetrics("c02")
 	type geo struct {
-		nb int
-		bd int64
+		nb  int
+		bd  int64
+		thr int64
 	}
-	geos := []geo{{3, 500000}, {4, 1000000}, {10, 100000}, {5, 20000}}
-	runs := 12
-	if verifThorough() {
-		runs = 60
-	}
+	geos := []geo{{3, 500, -1000000000}, {4, 1000, 999}, {10, 100, -1000000000}, {5, 20, 500}}
+	runs := verifEnvInt("VERIF_C02_WHIST", 40)
 	errOther := errors.New("c02 other error")
 	for run := 0; run < runs; run++ {
 		g := geos[rnd.Intn(len(geos))]
-		atomic.StoreInt64(&c02Rel, 0)
+		c02Rel.Store(0)
 		inner := load.NewAdaptiveShedder(load.WithBuckets(g.nb),
-			load.WithWindow(time.Duration(g.bd)*time.Microsecond*time.Duration(g.nb)), load.WithCpuThreshold(0))
-		rec := &c02Rec{t: t, em: em, inner: inner}
-		em.Emit(verifEv{"e": "reset", "kind": "adaptive", "nb": g.nb, "bd": g.bd, "strict": true, "thr": 0})
+			load.WithWindow(time.Duration(g.bd)*time.Millisecond*time.Duration(g.nb)), load.WithCpuThreshold(g.thr))
+		rec := &c02Rec{em: em, inner: inner}
+		em.Emit(verifEv{"e": "reset", "kind": "adaptive", "nb": g.nb, "bd": g.bd})
 		entered := make(chan *c02Req, 1)
 		var cur *c02Req
 		handler := func(ctx context.Context, req any) (any, error) {
@@ -143,30 +134,20 @@ func TestVerifC02Interceptor(t *testing.T) {
 		ic := UnarySheddingInterceptor(rec, metrics)
 		var parked []*c02Req
 		start := func() {
-			q := &c02Req{release: make(chan string, 1), done: make(chan [2]string, 1)}
+			q := &c02Req{release: make(chan string, 1), done: make(chan struct{})}
 			cur = q
 			go func() {
-				pan, res := "", ""
-				func() {
-					defer func() {
-						if r := recover(); r != nil {
-							pan = fmt.Sprint(r)
-						}
-					}()
-					_, err := ic(context.Background(), nil, &grpc.UnaryServerInfo{FullMethod: "/c02"}, handler)
-					if err != nil {
-						res = status.Code(err).String() + ": " + err.Error()
-					}
-				}()
-				q.done <- [2]string{res, pan}
+				defer close(q.done)
+				defer func() { recover() }()
+				ic(context.Background(), nil, &grpc.UnaryServerInfo{FullMethod: "/c02"}, handler)
 			}()
 			select {
 			case <-entered:
 				q.id = rec.lastID
 				parked = append(parked, q)
-			case d := <-q.done:
-				em.Emit(verifEv{"e": "hend", "id": 0, "out": "shed", "code": d[0]})
-			case <-time.After(20 * time.Second):
+			case <-q.done:
+				em.Emit(verifEv{"e": "hend", "id": 0})
+			case <-time.After(60 * time.Second):
 				t.Fatal("call neither reached the handler nor returned")
 			}
 		}
@@ -175,34 +156,37 @@ func TestVerifC02Interceptor(t *testing.T) {
 			parked = append(parked[:i], parked[i+1:]...)
 			q.release <- what
 			select {
-			case d := <-q.done:
-				out := what
-				if what == "wrapped" {
-					out = "deadline"
-				}
-				if what == "status" {
-					out = "err"
-				}
-				if what == "panic" && d[1] == "" {
-					out = "nopanic"
-				}
-				em.Emit(verifEv{"e": "hend", "id": q.id, "out": out, "code": d[0]})
-			case <-time.After(20 * time.Second):
+			case <-q.done:
+				em.Emit(verifEv{"e": "hend", "id": q.id})
+			case <-time.After(60 * time.Second):
 				t.Fatal("released call did not return")
 			}
 		}
 		outcomes := []string{"ok", "ok", "ok", "ok", "deadline", "wrapped", "err", "status", "panic"}
 		target := 2 + rnd.Intn(6)
-		for step := 0; step < 120+rnd.Intn(120); step++ {
+		pOv := rnd.Intn(3)
+		lastOv := int64(-1)
+		for step := 0; step < 150+rnd.Intn(150); step++ {
 			if rnd.Intn(25) == 0 {
-				target = 1 + rnd.Intn(8)
+				target = 1 + rnd.Intn(12)
+				pOv = rnd.Intn(3)
 			}
 			switch x := rnd.Intn(10); {
 			case x < 2:
-				d := []int64{0, int64(rnd.Intn(1000)), int64(1000 * (1 + rnd.Intn(40))), g.bd - atomic.LoadInt64(&c02Rel)%g.bd,
-					g.bd + int64(rnd.Intn(3)) - 1, g.bd * int64(g.nb), int64(1000 * (200 + rnd.Intn(1500)))}[rnd.Intn(7)]
-				em.Emit(verifEv{"e": "adv", "t": atomic.AddInt64(&c02Rel, d)})
+				now := c02Rel.Load()
+				d := []int64{1, 1 + int64(rnd.Intn(40)), g.bd - now%g.bd, g.bd + int64(rnd.Intn(3)) - 1,
+					g.bd * int64(g.nb), 200 + int64(rnd.Intn(1500)), lastOv + 999 + int64(rnd.Intn(3)) - now}[rnd.Intn(7)]
+				if d < 1 {
+					d = 1
+				}
+				c02Rel.Add(d)
+				em.Emit(verifEv{"e": "adv", "d": d})
 			case len(parked) <= target && x < 7:
+				ov := pOv == 2 || pOv == 1 && rnd.Intn(2) == 0
+				c02Ov.Store(ov)
+				if ov {
+					lastOv = c02Rel.Load()
+				}
 				start()
 			default:
 				if len(parked) > 0 {
